@@ -139,12 +139,14 @@ class BaseMySensorsProtocol(serial.threaded.LineReader):
 
     def _connection_lost(self, exc):
         """Call connection lost callbacks."""
+        # Forget the lost transport before reconnecting. The new connection
+        # is made in another thread and sets the new transport.
+        self.transport = None
         if self.gateway.on_conn_lost is not None:
             self.gateway.on_conn_lost(self.gateway, exc)
         if exc:
             _LOGGER.error(exc)
             self.conn_lost_callback()
-        self.transport = None
 
 
 class AsyncMySensorsProtocol(BaseMySensorsProtocol, asyncio.Protocol):
